@@ -254,3 +254,44 @@ func tailStr(s string, n int) string {
 	}
 	return s
 }
+
+// Nested generates a script in which goroutine 2 performs whole operations while a handler invoked by goroutine 1's
+// publish is parked inside its body (a deterministic interleaving: operations of one goroutine nested in a
+// callback of another).  The type has several registrations (Once ones among them) so that removals shift the list.
+func (g GenOpts) Nested(rnd *rand.Rand) Script {
+	types := pickTypes(rnd, 2)
+	t := types[0]
+	s := Script{Cfg: pick(rnd, g.Cfgs)}
+	n := 3 + rnd.IntN(4)
+	parkAt := rnd.IntN(n)
+	for i := 0; i < n; i++ {
+		o := Op{Op: "sub", T: t, Fn: gen.Fns[rnd.IntN(len(gen.Fns))], Once: rnd.Float64() < g.Once, Async: false}
+		if rnd.Float64() < g.Filt {
+			o.Filt, o.Accept = true, []string{"a", "b"}
+		}
+		if i == parkAt {
+			o.Body = []Op{{Op: "park", Ctx: "g1"}}
+		}
+		s.Setup = append(s.Setup, o)
+	}
+	s.Procs = [][]Op{{{Op: "pub", T: t, Val: "a", Ctx: "bg"}}, {{Op: "whenparked", Ctx: "g1"}}}
+	for i := 0; i < 1+rnd.IntN(3); i++ {
+		var o Op
+		switch rnd.IntN(7) {
+		case 0, 1:
+			o = Op{Op: "unsub", T: t, Fn: gen.Fns[rnd.IntN(len(gen.Fns))]}
+		case 2:
+			o = Op{Op: "sub", T: t, Fn: gen.Fns[rnd.IntN(len(gen.Fns))], Once: rnd.IntN(2) == 0}
+		case 3, 4:
+			o = Op{Op: "pub", T: t, Val: pick(rnd, vals), Ctx: "bg"}
+		case 5:
+			o = Op{Op: "clear", T: pick(rnd, types)}
+		default:
+			o = Op{Op: "count", T: t}
+		}
+		s.Procs[1] = append(s.Procs[1], o)
+	}
+	s.Procs[1] = append(s.Procs[1], Op{Op: "unpark", Ctx: "g1"})
+	s.Final = []Op{{Op: "pub", T: t, Val: "a", Ctx: "bg"}, {Op: "count", T: t}, {Op: "unpark", Ctx: "g1"}}
+	return s
+}
